@@ -20,6 +20,16 @@ namespace c14 {
   {
     float f[16];
   };
+  // larger than the default alignment and not a power of two: sizeof(T) must never be taken for an alignment
+  struct S96
+  {
+    double d[12];
+  };
+  // over-aligned element type: an allocator may honour alignof(T) > A, which is still a power-of-two multiple of A
+  struct alignas(128) O128
+  {
+    float f[32];
+  };
   // trivially destructible but NOT trivially copyable: a bitwise copy is not a copy of this type
   struct SelfRef
   {
@@ -42,6 +52,8 @@ namespace rkcommon {
     template struct aligned_allocator<int64_t, 128>;
     template struct aligned_allocator<c14::S24, 4096>;
     template struct aligned_allocator<c14::SelfRef>;
+    template struct aligned_allocator<c14::S96>;
+    template struct aligned_allocator<c14::O128>;
   }  // namespace containers
   namespace memory {
     template char *alignedMalloc<char>(size_t, size_t);
@@ -63,6 +75,14 @@ int *c14_hinted_int(const rkcommon::containers::aligned_allocator<int, 64> &a, c
 c14::S24 *c14_hinted_s24(const rkcommon::containers::aligned_allocator<c14::S24, 4096> &a, const char *hint)
 {
   return a.allocate(3, hint);
+}
+
+// construct() called with a non-const lvalue and with an rvalue: whatever overloads exist (copy, forwarding, variadic) are
+// instantiated for both value categories
+void c14_construct_categories(const rkcommon::containers::aligned_allocator<c14::SelfRef> &a, c14::SelfRef *p, c14::SelfRef &lv)
+{
+  a.construct(p, lv);
+  a.construct(p + 1, static_cast<c14::SelfRef &&>(lv));
 }
 
 bool c14_is_aligned(void *p)
